@@ -176,44 +176,21 @@ def callsite_limits(gs):
     return out
 
 
-def state_flow(gs):
-    """the statements of getStateToCopy that the model copies by hand, checked textually (fail closed)"""
-    src = U(gs)
-    for frag in ("state['type'] = reflect.qual(obj.type)",
-                 "if broker.unsafeTracebacks:",
-                 "stack = obj.getTraceback()",
-                 "state['traceback'] = stack",
-                 "parents = obj.parents[:]",
-                 "for i, value in enumerate(parents):",
-                 "state['parents'] = parents",
-                 "return state"):
-        need(frag in src, "getStateToCopy no longer contains: " + frag)
-    # order: the value/type truncation precedes the traceback block, elision precedes the traceback truncation
-    order = ["state['value'] = six.ensure_binary(truncate(", "if broker.unsafeTracebacks:", "if len(state['traceback']) >",
-             "state['traceback'] = six.ensure_binary(truncate(", "parents = obj.parents[:]", "state['parents'] = parents"]
-    pos = [src.find(x) for x in order]
-    need(all(p >= 0 for p in pos) and pos == sorted(pos), "getStateToCopy: statement order changed")
-    # default traceback text
-    els = [n for n in ast.walk(gs) if isinstance(n, ast.If) and U(n.test) == "broker.unsafeTracebacks"]
-    need(len(els) == 1 and len(els[0].orelse) == 1 and isinstance(els[0].orelse[0], ast.Assign)
-         and U(els[0].orelse[0].targets[0]) == "state['traceback']" and isinstance(els[0].orelse[0].value, ast.Constant)
-         and isinstance(els[0].orelse[0].value.value, str), "getStateToCopy: the no-traceback branch changed")
-    default_tb = els[0].orelse[0].value.value
-    # elision
-    el = [n for n in ast.walk(gs) if isinstance(n, ast.If) and U(n.test).startswith("len(state['traceback'])")]
-    need(len(el) == 1 and isinstance(el[0].test, ast.Compare) and len(el[0].test.ops) == 1 and isinstance(el[0].test.ops[0], ast.Gt)
-         and isinstance(el[0].test.comparators[0], ast.Constant) and not el[0].orelse and len(el[0].body) == 1,
-         "getStateToCopy: traceback elision test changed")
-    thr = el[0].test.comparators[0].value
-    a = el[0].body[0]
-    need(isinstance(a, ast.Assign) and U(a.targets[0]) == "state['traceback']" and isinstance(a.value, ast.BinOp), "elision body changed")
-    # state['traceback'][:H] + MARK + state['traceback'][-T:]
+def parse_elision(ifnode, subj):
+    """`if len(S) > T: S = S[:H] + MARK + S[-K:]` (no else) for the expression text S=subj  -> (T, H, K, MARK)"""
+    need(isinstance(ifnode, ast.If) and isinstance(ifnode.test, ast.Compare) and len(ifnode.test.ops) == 1
+         and isinstance(ifnode.test.ops[0], ast.Gt) and U(ifnode.test.left) == "len(%s)" % subj
+         and isinstance(ifnode.test.comparators[0], ast.Constant) and isinstance(ifnode.test.comparators[0].value, int)
+         and not ifnode.orelse and len(ifnode.body) == 1, "traceback elision test changed: " + U(ifnode)[:100])
+    thr = ifnode.test.comparators[0].value
+    a = ifnode.body[0]
+    need(isinstance(a, ast.Assign) and len(a.targets) == 1 and U(a.targets[0]) == subj and isinstance(a.value, ast.BinOp), "elision body changed")
     l1 = a.value.left
     need(isinstance(l1, ast.BinOp) and isinstance(l1.op, ast.Add) and isinstance(a.value.op, ast.Add), "elision expression changed")
     head, mark, tail = l1.left, l1.right, a.value.right
 
     def sl(n, want_lower):
-        need(isinstance(n, ast.Subscript) and U(n.value) == "state['traceback']" and isinstance(n.slice, ast.Slice) and n.slice.step is None,
+        need(isinstance(n, ast.Subscript) and U(n.value) == subj and isinstance(n.slice, ast.Slice) and n.slice.step is None,
              "elision slice changed: " + U(n))
         if want_lower:
             need(n.slice.upper is None and n.slice.lower is not None, "elision tail slice changed: " + U(n))
@@ -224,10 +201,84 @@ def state_flow(gs):
         v = P.const_expr(n.slice.upper)
         need(isinstance(v, int) and v >= 0, "elision head is not a literal")
         return v
-    h = sl(head, False)
-    t = sl(tail, True)
     need(isinstance(mark, ast.Constant) and isinstance(mark.value, str), "elision marker is not a literal")
-    return default_tb, thr, h, t, mark.value
+    return thr, sl(head, False), sl(tail, True), mark.value
+
+
+def state_flow(gs, mod):
+    """the statements of getStateToCopy that the model copies by hand (fail closed).
+
+    Accepted forms of the traceback elision (FIELD = state['traceback'], where `state` is the dict created by the
+    function's own `state = {}` and never rebound):
+      (A) inline:      if len(FIELD) > T: FIELD = FIELD[:H] + MARK + FIELD[-K:]
+      (B) via a helper: FIELD = g(FIELD)   where g is a module-level function of call.py, defined exactly once, with exactly
+                        one parameter p, no decorators, whose body (after an optional docstring) is exactly
+                            if len(p) > T: p = p[:H] + MARK + p[-K:]
+                            return p
+    Equivalence of (B) with (A), for every value v stored in FIELD and without assumptions on its type: in (B) FIELD is read
+    once and bound to p; then len(v), v[:H], + MARK, v[-K:], + are applied to that same object in the same order as in (A),
+    where each `FIELD` read is a plain-dict subscript (state is a builtin dict literal local to the function: reading it has
+    no side effect and returns the same object each time, nothing runs between the reads that could store to it); the
+    result (or v itself when the test is false) is stored back to FIELD, as in (A), where not storing leaves v in place.
+    Exceptions raised by len/slicing/+ propagate from the same point in the statement order of getStateToCopy."""
+    src = U(gs)
+    for frag in ("state['type'] = reflect.qual(obj.type)",
+                 "stack = obj.getTraceback()",
+                 "state['traceback'] = stack",
+                 "for i, value in enumerate(parents):",
+                 "return state"):
+        need(frag in src, "getStateToCopy no longer contains: " + frag)
+    body = [st for st in gs.body if not (isinstance(st, ast.Expr) and isinstance(st.value, ast.Constant))]
+    need(U(body[0]) == "state = {}" and not any(isinstance(n, ast.Name) and n.id == "state" and isinstance(n.ctx, (ast.Store, ast.Del))
+                                                for st in body[1:] for n in ast.walk(st)),
+         "getStateToCopy: `state` is not a fresh dict that is never rebound")
+    F = "state['traceback']"
+    idx = {}
+    elision = None
+
+    def mark(name, i):
+        need(name not in idx, "getStateToCopy: two statements look like the %s step" % name)
+        idx[name] = i
+    for i, st in enumerate(body):
+        t = U(st)
+        if t.startswith("state['value'] = six.ensure_binary(truncate("):
+            mark("value", i)
+        elif isinstance(st, ast.If) and U(st.test) == "broker.unsafeTracebacks":
+            mark("unsafe", i)
+        elif isinstance(st, ast.If) and U(st.test).startswith("len(%s)" % F):
+            mark("elide", i)
+            elision = parse_elision(st, F)
+        elif isinstance(st, ast.Assign) and U(st.targets[0]) == F and isinstance(st.value, ast.Call) and isinstance(st.value.func, ast.Name) \
+                and st.value.func.id != "truncate" and [U(a) for a in st.value.args] == [F] and not st.value.keywords and len(st.targets) == 1:
+            g = [n for n in mod.body if isinstance(n, ast.FunctionDef) and n.name == st.value.func.id]
+            others = [n for n in ast.walk(mod) if isinstance(n, (ast.FunctionDef, ast.ClassDef)) and n.name == st.value.func.id]
+            stores = [n for n in ast.walk(mod) if isinstance(n, ast.Name) and n.id == st.value.func.id and isinstance(n.ctx, (ast.Store, ast.Del))]
+            need(len(g) == 1 and len(others) == 1 and not stores and not g[0].decorator_list, "helper %s is not a plain module-level function defined once" % st.value.func.id)
+            a = g[0].args
+            need(len(a.args) == 1 and not (a.vararg or a.kwarg or a.kwonlyargs or a.posonlyargs or a.defaults), "helper signature")
+            pn = a.args[0].arg
+            hb = [x for x in g[0].body if not (isinstance(x, ast.Expr) and isinstance(x.value, ast.Constant))]
+            need(len(hb) == 2 and isinstance(hb[1], ast.Return) and U(hb[1].value) == pn, "helper %s is not `if ...: p = ...; return p`" % g[0].name)
+            mark("elide", i)
+            elision = parse_elision(hb[0], pn)
+        elif t.startswith("state['traceback'] = six.ensure_binary(truncate("):
+            mark("tbtrunc", i)
+        elif t == "parents = obj.parents[:]":
+            mark("parents", i)
+        elif t == "state['parents'] = parents":
+            mark("setparents", i)
+    order = ["value", "unsafe", "elide", "tbtrunc", "parents", "setparents"]
+    need(all(k in idx for k in order), "getStateToCopy: missing step(s) %s" % [k for k in order if k not in idx])
+    need([idx[k] for k in order] == sorted(idx[k] for k in order), "getStateToCopy: statement order changed")
+    need(idx["elide"] == idx["unsafe"] + 1 and idx["tbtrunc"] == idx["elide"] + 1, "getStateToCopy: something sits between the traceback steps")
+    # default traceback text
+    els = [n for n in ast.walk(gs) if isinstance(n, ast.If) and U(n.test) == "broker.unsafeTracebacks"]
+    need(len(els) == 1 and len(els[0].orelse) == 1 and isinstance(els[0].orelse[0], ast.Assign)
+         and U(els[0].orelse[0].targets[0]) == "state['traceback']" and isinstance(els[0].orelse[0].value, ast.Constant)
+         and isinstance(els[0].orelse[0].value.value, str), "getStateToCopy: the no-traceback branch changed")
+    default_tb = els[0].orelse[0].value.value
+    thr, h, t, mk = elision
+    return default_tb, thr, h, t, mk
 
 
 def cmp_fact(fn, test_prefix, left, right, what):
@@ -261,7 +312,7 @@ def gen_failure():
     cs = callsite_limits(gs)
     for k in ("type", "value", "traceback", "parents"):
         out.append("Definition trunc_limit_%s : Z := %d.   (* truncate(state[%r], %d) in getStateToCopy *)" % (k, cs[k], k, cs[k]))
-    default_tb, thr, h, t, mark = state_flow(gs)
+    default_tb, thr, h, t, mark = state_flow(gs, mod)
     # how the exception instance becomes text: str() may raise (a class can define __str__ freely), reflect.safe_str never does
     rend = [U(n.value) for n in ast.walk(gs) if isinstance(n, ast.Assign) and U(n.targets[0]) == "state['value']"
             and "obj.value" in U(n.value)]
@@ -463,8 +514,38 @@ def gen_send():
     need(adds and adds[0] in ("d.addBoth(_ready)", "d.addCallback(_ready)"), "doNextCall: _ready is attached with %s" % adds[:1])
     need(adds[-2:] == ["d.addErrback(self.callFailed, delivery.reqID, delivery)", "d.addErrback(log.err)"] and
          "d.addCallback(self._callFinished, delivery)" in adds, "doNextCall: the answer/error chain changed: %s" % adds)
-    need("self._waiting_for_call_to_be_ready = True" in [U(x) for x in dn.body] and
-         "if self._waiting_for_call_to_be_ready:\n    return" in [U(x) for x in dn.body], "doNextCall: waiting flag handling changed")
+    # Accepted forms (equivalent for all values, no assumption on types):
+    #  * the early returns before the queue is popped may be separate `if c: return` statements or ONE `if c1 or c2 ..: return`:
+    #    `or` evaluates its operands left to right, tests the truth of each exactly once and stops at the first true one,
+    #    which is what consecutive guards whose only effect is `return` (None) do; what is required is that the waiting flag
+    #    is among the tested conditions and that all of them precede the pop;
+    #  * `d` is bound either by `if not ready_deferred: ready_deferred = defer.succeed(None)` + `d = ready_deferred` or by
+    #    `d = ready_deferred or defer.succeed(None)`: both test the truth of ready_deferred once, yield that object when
+    #    true and call defer.succeed(None) once otherwise; they differ only in rebinding the local `ready_deferred`, which
+    #    is checked not to be read afterwards (nor captured by the inner function).
+    dbody = [x for x in dn.body if not (isinstance(x, ast.Expr) and isinstance(x.value, ast.Constant))]
+    guards, k = [], 0
+    while k < len(dbody) and isinstance(dbody[k], ast.If) and not dbody[k].orelse and len(dbody[k].body) == 1 \
+            and isinstance(dbody[k].body[0], ast.Return) and dbody[k].body[0].value is None:
+        t = dbody[k].test
+        guards += [U(v) for v in t.values] if isinstance(t, ast.BoolOp) and isinstance(t.op, ast.Or) else [U(t)]
+        k += 1
+    need("self._waiting_for_call_to_be_ready" in guards, "doNextCall no longer returns early while a delivery is being waited for: %s" % guards)
+    need(k + 1 < len(dbody) and U(dbody[k]) == "delivery, ready_deferred = self.inboundDeliveryQueue.pop(0)"
+         and U(dbody[k + 1]) == "self._waiting_for_call_to_be_ready = True", "doNextCall: pop / waiting flag handling changed")
+    flagstores = [U(n) for n in ast.walk(dn) if isinstance(n, ast.Assign) and U(n.targets[0]) == "self._waiting_for_call_to_be_ready"]
+    need(sorted(flagstores) == ["self._waiting_for_call_to_be_ready = False", "self._waiting_for_call_to_be_ready = True"],
+         "doNextCall: the waiting flag is stored %s" % flagstores)
+    rest = dbody[k + 2:]
+    if len(rest) >= 2 and U(rest[0]) == "if not ready_deferred:\n    ready_deferred = defer.succeed(None)" and U(rest[1]) == "d = ready_deferred":
+        after = rest[2:]
+    elif rest and U(rest[0]) == "d = ready_deferred or defer.succeed(None)":
+        after = rest[1:]
+    else:
+        raise P.Untranslatable("doNextCall: `d` is bound in an unknown way: " + U(rest[0])[:100])
+    need(not any(isinstance(n, ast.Name) and n.id == "ready_deferred" for st in after for n in ast.walk(st)),
+         "doNextCall: ready_deferred is used after d was bound")
+    need(not any(isinstance(n, ast.Assign) and any(U(t_) == "d" for t_ in n.targets) for st in after for n in ast.walk(st)), "doNextCall: d is rebound")
     out.append("Definition ready_flag_cleared_on_failure : bool := %s.   (* %s *)" % ("true" if adds[0] == "d.addBoth(_ready)" else "false", adds[0]))
     # receive side: a Violation inside a top-level PB sequence makes every unslicer up to the root give the sequence up
     # (reportViolation returns the failure; only the PBRootUnslicer absorbs), so exactly the rest of that one object is
